@@ -209,7 +209,7 @@ mod verif_kani {
     #[kani::proof]
     #[kani::unwind(3)]
     #[kani::stub(std::fmt::format, stub_format)]
-    fn c29_with_fetch_rows() { check_with_fetch(0, true); }
+    fn c29_with_fetch_single_partition() { check_with_fetch(0, true); }
 
     #[kani::proof]
     #[kani::unwind(3)]
